@@ -964,3 +964,65 @@ def dot_needs_digit(ctx, rid, G):
                     if p_["k"] == "str" and p_["v"] == "." and i_ + 1 == len(parts):
                         bad.append("%s: `.` at the end of the sequence" % r)
     ctx.inst(rid, "number#dot-needs-digit", not bad, "rules reachable from `number`: %s; a `.` that need not be followed by a digit: %s" % (sorted(seen), sorted(set(bad)) or "none"), "blots-core/src/grammar.pest")
+
+
+def literal_text_verbatim(ctx, rid, core):
+    """the characters of a string literal and of a static record key reach the tree as they were written (the grammar has no escapes:
+    whatever rewrites the token's text - trimming quote characters, unescaping - changes the value). Shared with C06."""
+    from lib import scope
+    CONV = {"to_string", "to_owned", "into", "clone", "as_ref", "unwrap", "expect"}
+    SINKS = ("ast::Expr::String", "ast::RecordKey::Static")
+    n_s = 0
+    for name, f0 in sorted(core.hir.items()):
+        if "::tests::" in name or f0.get("kind") not in ("Fn", "AssocFn") or not any("pest::iterators::pair" in t for t in f0.get("inputs", [])):
+            continue
+        f = core.hir_fn(name)
+
+        def is_sink(n):
+            if H.kind(n) == "Call":
+                return any(s_ in ((H.strip(n["f"]).get("res") or {}).get("def") or "") for s_ in SINKS)
+            return False
+        k = {}
+        for n, e, g in scope.sites(f["body"], is_sink, S.Env()):
+            d = (H.strip(n["f"]).get("res") or {}).get("def") or ""
+            for a in n["args"]:
+                if "String" not in (a.get("ty") or ""):
+                    continue
+                ts = text_source(a, e)
+                lab = H.last(d)
+                i_ = k.get(lab, 0)
+                k[lab] = i_ + 1
+                key = "%s#%s[%d]" % (name.replace(CORE, ""), lab, i_)
+                if ts is not None:
+                    ops = [o for o in ts[2] if o not in CONV]
+                    n_s += 1
+                    ctx.inst(rid, key, not ops, "the token's text%s" % (" as it is" if not ops else " after %s: characters of the literal are changed or dropped" % ops), H.loc(n))
+                    continue
+                a_ = H.strip(a)
+                # through a let-bound local
+                if H.kind(a_) == "Path" and H.path_local(a_) is not None:
+                    l_ = H.path_local(a_)
+                    if l_ in e.inline:
+                        a_ = H.strip(e.inline[l_][0])
+                    else:
+                        # the last `let` of that name met before the use, in traversal order
+                        last = None
+                        for s_ in H.walk(f["body"]):
+                            if s_ is n:
+                                break
+                            if isinstance(s_, dict) and s_.get("k") == "Let" and s_.get("init") is not None and l_ in H.pat_binds(s_["pat"]) and "String" in ((s_["pat"].get("ty") or "String")):
+                                last = s_
+                        if last is not None:
+                            a_ = H.strip(last["init"])
+                # a private helper inlined by hir_fn: `{ let (raw) = (pair.as_str()); <helper body> }`
+                if H.kind(a_) == "Block" and a_["stmts"] and a_["stmts"][0].get("k") == "Let" and H.kind(a_["stmts"][0].get("pat")) == "Tuple" and \
+                        any(H.kind(y) == "MethodCall" and y["name"] == "as_str" and "pest::iterators" in (y.get("recv_ty") or H.strip(y["recv"]).get("ty") or "") for y in H.walk(a_["stmts"][0].get("init") or {})):
+                    n_s += 1
+                    ctx.inst(rid, key, False, "the token's text goes through a helper of the builder before it becomes the value: the grammar has no escape sequences, every character of the literal is the value", H.loc(n))
+                    continue
+                if H.kind(a_) == "Call" and (a_.get("def") or "").startswith(CORE) and any(H.kind(y) == "MethodCall" and y["name"] == "as_str" and "pest::iterators" in (y.get("recv_ty") or H.strip(y["recv"]).get("ty") or "") for x_ in a_["args"] for y in H.walk(x_)):
+                    n_s += 1
+                    ctx.inst(rid, key, False, "the token's text goes through %s() before it becomes the value: the grammar has no escape sequences, every character of the literal is the value" % H.last(a_["def"]), H.loc(n))
+                else:
+                    ctx.inst(rid, key, None, "where the text comes from was not identified", H.loc(n))
+    ctx.inst(rid, "literal-text#sites", True if n_s >= 2 else None, "%d sites where a token's text becomes a string value or a static key" % n_s, None)
